@@ -7,7 +7,15 @@ that of the last rule that fires; the list reduced to that rule gives the same v
 a rule that does not fire changes nothing; a deny message is carried into Decision.reason; with
 no firing rule the verdict is the one of the empty configuration; an X=1 prefix or a transparent
 wrapper does not hide the command; a glob-free pattern matches by whole-word prefix (equality
-with the | anchor)."""
+with the | anchor).
+Second round - spelling families (harness/spell.py): a rule whose pattern names files in one spelling
+(., .., ~, ./x, ../x, x/.., ~/x, /abs, //, /./, trailing /, detours, symlinks; built by construction and
+validated with os.path.realpath) must decide the command that names the same files in any other
+spelling - at every position of the pattern, as command rule / alias / redirect rule, allow/ask/deny
+with and without message, anchored / prefix / trailing ' *', behind every assignment and wrapper form,
+alone and after an earlier rule in yet another spelling; a rule for another file is inert.  The
+expectation comes from the file system, not from the matcher under test.  Function level: the loop body
+of _match_words (Rules.pat_matches) on every pattern of <= 3 atoms x every text of <= 4 atoms."""
 from __future__ import annotations
 
 import fnmatch
@@ -570,7 +578,12 @@ def run(tier, seed, replay=None):
             "patterns with messages, redirect/after/mcp/after-mcp/alias lines, x commands from a pool of 15 bases (bare, "
             "relative, ~, absolute) with path arguments, remote on/off, 0-2 redirect targets; C: systematic "
             f"{n_sys} = base x wrapper form (bare, X=1, A=b C=d, time, timeout 5, nice -n 3, nohup, command --, combos) x "
-            "decision x pattern shape, then random rule lists x commands x forms. distinct = distinct canonical inputs; "
+            "decision x pattern shape, then random rule lists x commands x forms; A2: pat_matches exhaustively (pattern atoms a b blank * ? [a] [!a] ' *', "
+            f"<= 3 atoms; text atoms a b blank *, <= 4 atoms; anchored or not: {out.extra.get('pat_matches_cases')} cases); D: {out.extra.get('spelling_cases')} "
+            "spelling cases = 15 files (cwd, parent, grandparent, home, /, directory, file, missing, outside, under home, system, through a link) x "
+            "every spelling of the family in the pattern and in the command (undecorated forms fully crossed) x 8 pattern positions x command "
+            "rule / alias / redirect rule x decision x message x anchor / ' *' / extra word x 35 prefix forms (rotated), two-rule lists, "
+            "other-file controls. distinct = distinct canonical inputs; "
             "non-trivial = a glob metacharacter in the pattern (A), >= 2 rules (B, C)")
         return out
     finally:
